@@ -22,6 +22,14 @@ def export_schema_graph(work, depth, rdepth, rep, label):
     return _table(work, out, "s" + label)
 
 
+def export_enum_graph(work, rep, label):
+    """Reference automaton of the enum-rule notation (spec/EnumText.tla explored by EnumRef.tla)."""
+    out = work.path("eref-%s.txt" % label)
+    r = vlib.tlc(work, "EnumRef", "EnumRef.cfg", consts={"Alphabet": "0..255"}, to_file=out, timeout=3000, heap="12g")
+    rep.add_tlc(r, "EnumRef")
+    return _table(work, out, "e" + label)
+
+
 def _table(work, out, label):
     ids, verdict, delta = {}, [], []
 
